@@ -12,15 +12,18 @@ CLAIMED = {
             "bounded model checking (kernel scope): panic-freedom of the scalar kernels a compilation feeds with author-controlled numbers "
             "(get_indent, @for ranges, Number/Numeric/colour kernels: every f64 / i64 input within the stated bounds) and of every overflow/"
             "index assertion inside the string/list/random closures; the parser and evaluator are outside (stated in evidence)"),
-    "C02": ("E2", "symbolic execution of Context::lock_loading / unlock_loading (MIR), decided by z3 and cvc5",
-            "bounded model checking (lock scope): a loop error is raised exactly when the file's name is already registered as being loaded, and "
-            "unlock removes the same key; URL resolution, pairing of lock/unlock and termination are outside"),
-    "C03": ("E2", "symbolic execution of CssData::load_module (MIR), decided by z3 and cvc5",
+    "C02": ("E2", "symbolic execution of Context::lock_loading / unlock_loading and of the @use/@forward/@import arms of handle_item (MIR), decided by z3 and cvc5",
+            "bounded model checking (lock scope): a loop error is raised exactly when the file's name is already registered as being loaded, unlock removes the same key, "
+            "and every file handed out by find_file is unlocked exactly once on every Ok path of the three arms (so only a real cycle meets a lock); URL spelling "
+            "normalisation, meta.load-css and termination are outside"),
+    "C03": ("E2", "symbolic execution of CssData::load_module and of the @use/@forward arms of handle_item (MIR), decided by z3 and cvc5",
             "bounded model checking (cache scope): one inductive step from an arbitrary cache: the module initialiser runs only on a miss, exactly once, "
-            "and its result is cached under the same key; canonical spelling of the key is outside"),
+            "and its result is cached under the same key; the arms key the cache by the resolved path of the file found (not by the URL as written); "
+            "canonicalisation of the path itself is outside"),
     "C04": ("E2", "symbolic execution of Context::find_file / do_find_file and FsLoader::find_file (MIR) over a nondeterministic loader and file system; path feasibility decided by z3 and cvc5",
             "bounded model checking (lookup scope): the candidate tables are the documented lists in order (import table exactly for @import); the first existing candidate / "
-            "load path wins for every combination of present and absent files among up to 3 candidates and 3 load paths; URL normalisation and the plain-CSS fallback are outside"),
+            "load path wins for every combination of present and absent files among up to 3 candidates and 3 load paths; an @import that finds nothing becomes a plain CSS "
+            "import only for http(s)://, //, *.css, url() targets; URL normalisation is outside"),
     "C39": ("E2", "symbolic execution of Context::find_file / do_find_file and FsLoader::find_file (MIR) with a failure injected at every loader / open / read / lock call; z3 and cvc5",
             "bounded model checking (lookup scope): every failing loader, open, read or lock call makes the lookup return an error (never Ok(None) or a later candidate); "
             "the evaluator's callers and whole compilations are outside"),
@@ -60,9 +63,9 @@ CLAIMED = {
     "C21": ("E2", "symbolic execution of handle_item's @error arm and of the destination Drop impls (MIR)",
             "bounded model checking (dispatch scope): @error always fails the compilation; the Drop impls always commit their content; "
             "one recorded finding (a commit error inside Drop is only printed, so content can be dropped silently)"),
-    "C36": ("E2", "symbolic execution of handle_item's comment arm (MIR), obligations decided by z3 and cvc5",
-            "bounded model checking (dispatch scope): which loud comments reach the output in which style, and that the emitted text is the "
-            "evaluated comment; one recorded finding (compressed style drops /*! comments too); parsing and re-indentation are outside"),
+    "C36": ("E2", "symbolic execution of handle_item's comment arm and of the @use/@forward module initialiser closures (MIR), obligations decided by z3 and cvc5",
+            "bounded model checking (dispatch scope): which loud comments reach the output in which style, that the emitted text is the evaluated comment, and that a "
+            "used module is evaluated with the using compilation's format; one recorded finding (compressed style drops /*! comments too); parsing and re-indentation are outside"),
 }
 
 NOT_APPLICABLE = {
